@@ -5,7 +5,6 @@ import (
 	"fmt"
 	"os"
 	"regexp"
-	"strconv"
 	"strings"
 )
 
@@ -48,7 +47,7 @@ func rpmSimple(s string) bool { return rpmSimpleRe.MatchString(strings.TrimSpace
 // ComparableVersion: N(.N){0,3} optionally followed by one known pre-release qualifier with a
 // glued number (or the aliases a/b/m directly followed by digits), joined by '.' or '-', the
 // number before the qualifier not being 0, every number of at most 18 digits.
-var mavenCoreRe = regexp.MustCompile(`(?i)^((\d{1,18})(\.\d{1,18}){0,3})([.-]((alpha|beta|milestone|rc|cr|snapshot)\d{0,18}|[abm]\d{1,18}))?$`)
+var mavenCoreRe = regexp.MustCompile(`(?i)^((\d+)(\.\d+){0,3})([.-]((alpha|beta|milestone|rc|cr|snapshot)\d*|[abm]\d+))?$`)
 
 func mavenCore(s string) bool {
 	m := mavenCoreRe.FindStringSubmatch(strings.TrimSpace(s))
@@ -57,7 +56,7 @@ func mavenCore(s string) bool {
 	}
 	if m[4] != "" {
 		parts := strings.Split(m[1], ".")
-		if n, err := strconv.ParseUint(parts[len(parts)-1], 10, 64); err == nil && n == 0 {
+		if strings.Trim(parts[len(parts)-1], "0") == "" {
 			return false
 		}
 	}
